@@ -15,9 +15,12 @@ from . import envshim, vsched, wd
 from . import explore as ex
 
 DIRS = ["d", "e", "d/d", "e/d", "d/e"]   # d has two possible sub-directories (siblings matter for walks)
-FILES = ["f", "g", "d/f", "e/f"]
+FILES = ["f", "g", "d/f", "e/f", "d/d/f"]   # d/d/f: a file two levels below a directory (nested bursts)
 ALL = DIRS + FILES
 KIND = {**{p: "d" for p in DIRS}, **{p: "f" for p in FILES}}
+
+
+MKTREE = {"d": "d", "d/d": "d", "d/f": "f", "d/d/f": "f"}
 
 
 def parent(p):
@@ -76,6 +79,8 @@ class Model:
         for p in ("d/d", "e/d", "d/e"):
             if parent(p) not in t and p not in t:
                 out.append(("makedirs", p))
+        if "d" not in t:
+            out.append(("mktree", "d"))      # mkdir -p d/d; touch d/f d/d/f  - one nested burst
         for p in files_now:
             out.append(("append", p))
             out.append(("truncate", p))
@@ -145,6 +150,11 @@ class Model:
             t[op[1]] = "d"
             hot = {parent(op[1]), op[1]}
             touched = set(hot)
+        elif k == "mktree":
+            for q, kk in MKTREE.items():
+                t[q] = kk
+            hot = {"d", "d/d"}
+            touched = set(MKTREE)
         elif k in ("append", "truncate", "chmod"):
             touched = {op[1]}
         elif k == "unlink":
@@ -226,6 +236,8 @@ def pacing_ok(hot, model_before, op):
     if k in ("mknod", "mkdir", "move_in_file", "move_in_dir") and op[1] in hot:
         return False
     if k == "makedirs" and ({op[1], parent(op[1])} & hot):
+        return False
+    if k == "mktree" and (set(MKTREE) & hot):
         return False
     if k == "rename" and op[2] in hot:
         return False
@@ -355,6 +367,10 @@ class HistoryHarness(ex.Harness):
             os.mkdir(P(op[1]))
         elif k == "makedirs":
             os.makedirs(P(op[1]))
+        elif k == "mktree":
+            os.makedirs(P("d/d"))
+            open(P("d/f"), "w").close()
+            open(P("d/d/f"), "w").close()
         elif k == "append":
             with open(P(op[1]), "a") as f:
                 f.write("x")
@@ -843,6 +859,10 @@ def provenance(path, hist):
             origin = "makedirs"
             chain.append(("makedirs", pace))
             break
+        elif k == "mktree" and p in ("d", "d/d"):
+            origin = "mkdir"
+            chain.append(("mktree", pace))
+            break
         if hit:
             chain.append((hit, pace))
     chain.reverse()
@@ -873,10 +893,62 @@ def classify_dir(path, hist):
         return "directory moved in from outside the tree is not watched"
     if origin in ("mkdir", "makedirs") and undrained:
         own = any(k == "rename" for k, _ in chain[1:]) and _own_rename(path, hist)
+        if _ancestor_renamed_undrained(path, hist):
+            return "directory created below a directory that was renamed before the creation was processed is not watched"
+        if own and _name_reused(path, hist):
+            return ("directory created and renamed, its first name re-used by another entry before the creation was "
+                    "processed, is not watched")
         if own:
             return "directory created and renamed before its creation was processed is not watched"
         return "directory created below a directory that was renamed before the creation was processed is not watched"
     return "dir-provenance=" + ">".join(f"{k}|{p}" for k, p in chain) if chain else "dir-provenance=initial"
+
+
+def _ancestor_renamed_undrained(path, hist):
+    """After the directory was created and before the next drain, was one of its ancestors renamed?"""
+    p = path
+    ops = list(hist)
+    trail = []   # (index, renamed the directory itself?)
+    i0 = None
+    for i in range(len(ops) - 1, -1, -1):
+        op = ops[i][0]
+        if op[0] == "rename" and (p == op[2] or inside(p, op[2])):
+            trail.append((i, p == op[2]))
+            p = op[1] + p[len(op[2]):]
+        elif op[0] in ("mkdir", "makedirs", "mktree") and (p == op[1] or p == parent(op[1])):
+            i0 = i
+            break
+    if i0 is None:
+        return False
+    drained_at = None
+    for i in range(i0, len(ops)):
+        if ops[i][1] in ("drain", "drain-soft"):
+            drained_at = i
+            break
+    return any((not own) and (drained_at is None or i <= drained_at) for i, own in trail)
+
+
+def _name_reused(path, hist):
+    """Was the name the directory was created under taken by another entry before a drain?"""
+    p = path
+    ops = list(hist)
+    i0 = None
+    for i in range(len(ops) - 1, -1, -1):
+        op = ops[i][0]
+        if op[0] == "rename" and (p == op[2] or inside(p, op[2])):
+            p = op[1] + p[len(op[2]):]
+        elif op[0] in ("mkdir", "makedirs", "mktree") and (p == op[1] or p == parent(op[1])):
+            i0 = i
+            break
+    if i0 is None:
+        return False
+    for op, pace in ops[i0 + 1:]:
+        dest = op[2] if op[0] == "rename" else (op[1] if op[0] in ("mknod", "mkdir", "move_in_file", "move_in_dir") else None)
+        if dest == p:
+            return True
+        if pace in ("drain", "drain-soft"):
+            break
+    return False
 
 
 def _own_rename(path, hist):
@@ -929,7 +1001,8 @@ def replay_record(rec, checks):
                  root_type="bytes" if "-bytes" in tag else ("path" if "-path" in tag else "str"),
                  full="-full" in tag, root_form="rel" if "-rel" in tag else ("slash" if "-slash" in tag else "abs"),
                  names=(tag.split("-names:")[1].split("-")[0] if "-names:" in tag else "ascii"),
-                 second_filter=(tag.split("-filter=")[1].split("-faults")[0].split("+") if "-filter=" in tag else None))
+                 second_filter=(tag.split("-filter=")[1].split("-faults")[0].split("+") if "-filter=" in tag else None),
+                 early="-early" in tag, split_reads="-split" in tag)
     hist = [(tuple(op), pace) for op, pace in rec["history"]]
     h = HistoryHarness(rec["tree0"], hist, cfg)
     a = ex.run_one(h, bytes(rec.get("prefix") or []), record_desc=True)
@@ -1089,6 +1162,12 @@ def contract(m, op, cfg):
     elif k == "makedirs":
         top = parent(op[1])
         req, alw = arrive(top, "d", {op[1].rsplit("/", 1)[1]: "d"}, moved_in=False)
+    elif k == "mktree":
+        req, alw = arrive("d", "d", {"d": "d", "f": "f", "d/f": "f"}, moved_in=False)
+        if rec:
+            # files created with open(): opened/closed events are welcome as well
+            for q in ("d/f", "d/d/f"):
+                alw |= {ev("FileOpenedEvent", q), ev("FileClosedEvent", q), ev("FileModifiedEvent", q)}
     elif k == "append":
         p = op[1]
         if visible(p):
@@ -1296,6 +1375,17 @@ def check_paths(h, res):
     for op, _ in h.history:
         m.apply(op)
         known |= {h.mapname(p) for p in m.tree}
+    # exact names: the created events of a single, drained operation name exactly the entries it created
+    if h.cfg.recursive and len(h.history) == 1 and h.history[0][0][0] not in ("rename", "move_out", "rmtree_root"):
+        m0 = Model(h.tree0)
+        before = set(m0.tree)
+        m0.apply(h.history[0][0])
+        new = {h.mapname(p) for p in set(m0.tree) - before}
+        created = {e[2] for e in v["events"] if e[1].endswith("CreatedEvent")}
+        if created != new:
+            out.append(dict(kind="path-name", msg=f"created events name {sorted(created)}, the operation created "
+                                                  f"{sorted(new)}; history={h.name}; events={v['events']}",
+                            fp=f"path-name created events do not name the created entries ({h.history[0][0][0]}) names={h.cfg.names}"))
     for e in v["events"] + v["probe_events"]:
         tys = e[6].split("/")
         for which, val, ty in (("src_path", e[2], tys[0]), ("dest_path", e[3], tys[1])):
